@@ -4,7 +4,7 @@
    closes by either side, timers, at arbitrary positions relative to frames in flight.
    Only property theorems here, each closed by [exact]. *)
 From Coq Require Import NArith ZArith List Bool.
-From Cloak Require Import Model.Reorder Model.Mux Proofs.MuxBase Proofs.MuxSafety Proofs.MuxCount.
+From Cloak Require Import Model.Reorder Model.Mux Proofs.MuxBase Proofs.MuxSafety Proofs.MuxCount Proofs.MuxCB.
 Import ListNotations.
 Local Open Scope N_scope.
 
@@ -90,3 +90,16 @@ Theorem C12_timer_closes_only_without_open_streams :
   se_closed (sess y s) = false -> se_closed (sess y' s) = true -> live_streams (sess y s) = [].
 Proof. exact timer_closes_only_without_open_streams. Qed.
 Print Assumptions C12_timer_closes_only_without_open_streams.
+
+(* "All of the session's connections end up closed": in every reachable state (every quiescent
+   moment, after any label sequence) a closed session - closed by a fault, by the peer's notice, by
+   its own Close whether or not the notice could be sent, or by the timer - has run closeAll and
+   its end of every connection of its pool is closed. *)
+Theorem C12_closed_session_has_closed_its_connections :
+  forall k sp u ta tb ls s,
+  let y := reach k sp u ta tb ls in
+  se_closed (sess y s) = true ->
+  se_broken (sess y s) = true /\
+  forall c cn, In c (se_pool (sess y s)) -> nthN (N.to_nat c) (sy_conns y) = Some cn -> conn_closed_end cn s = true.
+Proof. exact closed_session_has_closed_its_connections. Qed.
+Print Assumptions C12_closed_session_has_closed_its_connections.
